@@ -6,7 +6,7 @@ EXTENDS Naturals, Sequences, FiniteSets, TLC, Json
 CONSTANTS MaxLen
 GNames == {<<>>, <<1>>, <<2>>, <<1, 1>>, <<1, 3>>, <<3>>, <<1, 4, 1>>, <<5>>, <<1, 6>>, <<7>>}
 GArgs  == {<<>>, <<1>>, <<2>>, <<3>>, <<4>>, <<1, 3>>, <<1, 4>>, <<5>>, <<6>>, <<1, 6>>, <<7>>}
-GTagSeqs == {<<>>, <<1>>, <<2>>, <<1, 2>>, <<1, 1>>}
+GTagSeqs == {<<>>, <<1>>, <<2>>, <<1, 2>>, <<1, 1>>, <<3>>, <<3, 1>>}
 Kinds == {"prefix", "exact", "suffix", "contains", "any", "invalid"}
 GOps == [op : {"register"}, name : GNames, uri : {1, 2}, safe : BOOLEAN, tags : GTagSeqs, meta : {FALSE}]
    \cup [op : {"remove"}, sel : {"name"}, arg : GNames, kind : {"none"}, meta : {FALSE}]
